@@ -269,6 +269,9 @@ ObserveEnd(o, e) ==
      \cup UNION {VerdictFlags(o, m, r.msgs[m]) : m \in M}
      \cup Flag("C20_OneEntryPerFailedMessage",
                (r.top = "" /\ \A m \in M : Judged(o, m)) => r.nerrs = Cardinality(failed))
+     \* (DialAndSend: whatever else goes wrong while the connection is closed, the error it returns is the joined error
+     \* of the failed messages)
+     \cup Flag("C20_OneEntryPerFailedMessage", (r.op = "DialAndSend" /\ failed # {}) => r.top = "")
      \* ... and every entry names its message (SendError.Msg): the entries are the failed messages, each once
      \cup Flag("C20_EntriesNameFailedMessages",
                (r.top = "" /\ \A m \in M : Judged(o, m)) => (Rng(r.entries) = failed /\ Len(r.entries) = Cardinality(failed)
